@@ -24,7 +24,9 @@ class Stub:   # minimal ESF: the light classes only read x and Q2
     x, Q2 = 0.1, 10.0
 
 
-def first_moment(r):
+def first_moment(r, x0=0.0):
+    """First moment of the distribution as it is USED at the reference point x0: the local part the convolution reads there plus
+    the integral of the singular part below it (x0 = 0: the textbook delta coefficient)."""
     import scipy.integrate as si
 
     if r is None:
@@ -35,8 +37,10 @@ def first_moment(r):
         tot += si.quad(f, 0, 1, epsabs=1e-11, epsrel=1e-11, limit=600)[0]
         scale += si.quad(lambda z: abs(f(z)), 0, 1, epsabs=1e-9, epsrel=1e-9, limit=600)[0]
     if r.loc is not None:
-        tot += float(r.loc(0.0, r.args["loc"]))
-        scale += abs(float(r.loc(0.0, r.args["loc"])))
+        tot += float(r.loc(x0, r.args["loc"]))
+        scale += abs(float(r.loc(x0, r.args["loc"])))
+    if r.sing is not None and x0 > 0.0:
+        tot += si.quad(lambda z: float(r.sing(z, r.args["sing"])), 0, x0, epsabs=1e-11, epsrel=1e-11, limit=600)[0]
     return tot, scale    # the plus distribution has no first moment
 
 
@@ -52,14 +56,16 @@ def rules_job(rules):
     for r in sorted(rules, key=lambda r: (r["order"], r["nf"])) + sorted(rules, key=lambda r: (r["order"], -r["nf"])):
         const = sum(float(common.frac(c)) * a for c, a in zip(r["value"], (1.0, Z3, Z5)))
         for label, cls in src[r["rule"]]:
-            try:
-                m, scale = first_moment(cls(Stub(), r["nf"])[r["order"]]())
-            except Exception as ex:
-                m, scale = float("nan"), 1.0
-            tol = REL_PARAM * abs(const) + ABS_SCALE * scale + 1e-12
-            lines.append(dict(what="rule", rule=r["rule"], order=r["order"], nf=r["nf"], value=r["value"], cls=label,
-                              finite=bool(math.isfinite(m)), dev_milli=common.milli(abs(m - const), tol),
-                              note=f"first moment {m!r}, constant {const!r}, tol {tol:.2e}"))
+            # the sum rule is a statement about the distribution: it holds at whatever point x0 the local part is read
+            for x0 in (0.0, 0.5, 0.9):
+                try:
+                    m, scale = first_moment(cls(Stub(), r["nf"])[r["order"]](), x0)
+                except Exception as ex:
+                    m, scale = float("nan"), 1.0
+                tol = REL_PARAM * abs(const) + ABS_SCALE * scale + 1e-12
+                lines.append(dict(what="rule", rule=r["rule"], order=r["order"], nf=r["nf"], value=r["value"], cls=label,
+                                  finite=bool(math.isfinite(m)), dev_milli=common.milli(abs(m - const), tol),
+                                  note=f"first moment {m!r} (local part read at x0={x0}), constant {const!r}, tol {tol:.2e}"))
     return lines
 
 
